@@ -277,3 +277,36 @@ Theorem C05_bit_semantics_never_crashes_and_has_the_declared_shape :
      end).
 Proof. exact tsem_program_safe_ok. Qed.
 Print Assumptions C05_bit_semantics_never_crashes_and_has_the_declared_shape.
+
+(* ------------------------------------------------------------------ FROM THE UNTYPED PROGRAM: accepted
+   programs do not crash the compiler (Check/InferSafe.v; Check/Infer.v is the model of src/check.rs,
+   tied to it).  For an untyped program in the Boolean fragment [in_sound_fragment] (everything except
+   join, const-sized arrays and unsuffixed literals) whose struct definitions and struct patterns have
+   their fields sorted by name ([structs_sorted], [sp_program]: what the parser produces) and whose
+   entry function is declared: if the (model of the) checker accepts it and the node types of its
+   output pass [tys_program] (nesting depth and array-size caps of the TSemSafe model, a Boolean on
+   the output), then the output satisfies TSemSafe.safe_program_ok - so the lowering over Booleans
+   never crashes on arguments of the parameters' sizes, for any fuel, and returns size(ret) bits. *)
+From GV Require Import Front.Scan Front.ParseExpr Check.UAst Check.Infer Check.InferSound Check.InferSafe Compile.TSemSafe.
+
+Theorem C05_accepted_programs_satisfy_the_compilers_assumptions : forall intern : list N -> N,
+  (forall a b, intern a = intern b -> a = b) -> forall fuel P P',
+  in_sound_fragment P = true -> structs_sorted P = true -> sp_program P = true -> main_declared P = true ->
+  (fuel <= S Wt.wt_fuel)%nat -> check_program intern fuel P = COk P' -> tys_program P' = true ->
+  safe_program_ok P' = true.
+Proof. exact check_safe_fragment. Qed.
+Print Assumptions C05_accepted_programs_satisfy_the_compilers_assumptions.
+
+Theorem C05_accepted_programs_do_not_crash_the_compiler : forall intern : list N -> N,
+  (forall a b, intern a = intern b -> a = b) -> forall fuel P P',
+  in_sound_fragment P = true -> structs_sorted P = true -> sp_program P = true -> main_declared P = true ->
+  (fuel <= S Wt.wt_fuel)%nat -> check_program intern fuel P = COk P' -> tys_program P' = true ->
+  forall tfuel args, exists fd, find_fn P' (p_main P') = Some fd /\
+    (Forall2 (fun p a => length a = Lower.szn P' (snd p)) (fn_params fd) args ->
+     match TSem.tsem_program tfuel P' args with
+     | Crash => False
+     | OutOfFuel => True
+     | Ok (_, outs) => length outs = Lower.szn P' (fn_ret fd)
+     end).
+Proof. exact accepted_programs_do_not_crash_the_compiler. Qed.
+Print Assumptions C05_accepted_programs_do_not_crash_the_compiler.
